@@ -5,16 +5,63 @@ import absint
 import pf
 import q
 from mir import Agg, Call, Const, Named, Var
-from rules.common import expect_defs, has_fact, loop_passes, option_blocks, result_blocks
+from rules.common import expect_defs, has_fact, loop_passes, opt_fact, option_blocks, result_blocks
 
 LOCATE = "detector::locate_sourcemap_reference"
 P_NEW = "//# sourceMappingURL="
 P_OLD = "//@ sourceMappingURL="
 
 
+def _comment_scan_strip_prefix(ctx, rule, b):
+    """The same scan written with `str::strip_prefix`: the prefix test and the cut are one call, so there is no
+    index to get wrong; each prefix has its own literal."""
+    fn = b.path
+    sp = q.calls_to(b, "str::strip_prefix")
+    line = sorted(set(q.root_local(q.arg_expr(b, t, 0)) for bi, t in sp) - {None})
+    line = [l for l in line if b.local_ty(l).endswith("String")]
+    if not ctx.check(len(line) == 1, rule, fn, "line", "each line of the input is examined"):
+        return
+    roles = {line[0]: "line"}
+    shapes = sorted(q.shape(b.expr_of_call(t), roles) for bi, t in sp)
+    A, B = "str::strip_prefix(line,%r)" % P_NEW, "str::strip_prefix(line,%r)" % P_OLD
+    ctx.check(shapes == sorted([A, B]) and not q.calls_to(b, "str::starts_with"), rule, fn, "prefixes",
+              "the scan recognises exactly '//# sourceMappingURL=' and '//@ sourceMappingURL='", detail=str(shapes))
+    ctx.check(len(P_NEW) == 21 and len(P_OLD) == 21, rule, fn, "prefix-len", "both prefixes are 21 bytes long")
+    lits = [(bi, s["rv"]["variant"], b.expr_of_rvalue(s["rv"])) for bi, si, s, it in b.locations() if not it and s["k"] == "assign" and s["rv"]["k"] == "agg" and s["rv"].get("adt") == "detector::SourceMapRef"]
+    ctx.check(sorted(v for _, v, _ in lits) == ["LegacyRef", "Ref"], rule, fn, "variants", "a reference is reported as Ref or LegacyRef")
+    heads = [hb for hb, t in q.calls_to(b, "Iterator::next")]
+    rets = [r for r in b.return_blocks()]
+    for bi, v, e in lits:
+        P = B if v == "LegacyRef" else A
+        ctx.check(q.shape(e.ops[0], roles) == "ToOwned::to_owned(str::trim(try(%s)))" % P, rule, fn, "trim", "the URL is what follows the prefix of that same line, trimmed", ctx.site(b, bi), detail=q.shape(e.ops[0], roles))
+        ctx.check(has_fact(b, bi, roles, *opt_fact("some", P)), rule, fn, "legacy:%s" % v, "the '@' form and only it is flagged as legacy", ctx.site(b, bi))
+        ctx.check(bool(heads) and not b.reaches(bi, heads[0]), rule, fn, "first-match:%s" % v, "the first matching line is returned (no further lines are read)", ctx.site(b, bi))
+        # a line with the prefix always reaches the literal: from the Some edge nothing leads back to the loop or out before it
+        for cb, t in sp:
+            if q.shape(b.expr_of_call(t), roles) != P:
+                continue
+            sw = b.blocks[cb]["term"].get("t")
+            tt = b.blocks[sw]["term"] if sw is not None else {}
+            some_t = [tb for val, tb in tt.get("arms", []) if val == 1] if tt.get("k") == "switch" else []
+            if not some_t and tt.get("k") == "switch" and any(val == 0 for val, _ in tt.get("arms", [])):
+                some_t = [tt["otherwise"]]
+            ok = bool(some_t)
+            if ok:
+                r = b.reachable_blocks(some_t[0], avoid=[bi])
+                ok = not any(x in r for x in heads) and not any(x in r for x in rets if x != bi) and some_t[0] not in heads
+            ctx.check(ok, rule, fn, "no-skip:%s" % v, "a line that starts with the prefix always reaches the reference literal (no further condition skips it)", ctx.site(b, cb))
+    oks = [q.shape(b.expr_of_rvalue(s["rv"])) for bi, si, s, it in b.locations() if not it and s["k"] == "assign" and s["place"]["l"] == 0 and s["rv"]["k"] == "agg" and s["rv"].get("variant") == "Ok"]
+    ctx.check("Result::Ok{0:Option::None{}}" in oks, rule, fn, "no-ref", "nothing is reported when no line begins that way")
+    sb = ctx.body("detector::locate_sourcemap_reference_slice")
+    calls = [q.shape(sb.expr_of_call(t)) for bi, t in sb.calls()]
+    ctx.check(calls == ["detector::locate_sourcemap_reference(arg1)"], rule, sb.path, "slice-variant", "the slice variant runs the same scan", detail=str(calls))
+
+
 def comment_scan(ctx, rule):
     b = ctx.body(LOCATE)
     fn = b.path
+    if not q.calls_to(b, "str::starts_with") and q.calls_to(b, "str::strip_prefix"):
+        return _comment_scan_strip_prefix(ctx, rule, b)
     line = sorted(set(q.root_local(q.arg_expr(b, t, 0)) for bi, t in q.calls_to(b, "str::starts_with")) - {None})
     line = [l for l in line if b.local_ty(l).endswith("String")]
     if not ctx.check(len(line) == 1, rule, fn, "line", "each line of the input is examined"):
